@@ -324,3 +324,108 @@ def doc_for_bbox(d):
     W, H = d['canvas']
     return ('<svg %s width="%d" height="%d"><g opacity="0.5"><rect x="%s" y="%s" width="%s" height="%s" fill="#22d" stroke="#d22" stroke-width="1"/></g></svg>'
             % (NS, W, H, fnum(x + 0.5), fnum(y + 0.5), fnum(max(0.01, w - 1)), fnum(max(0.01, h - 1))))
+
+
+# ------------------------------------------------------------------------------------------------
+# strengthening (seeded changes C13-3, C13-4, C14-1, C14-2): content whose visibility / extent is decided by
+# something other than the fill box - strokes, images, filter regions - on non-square canvases
+# ------------------------------------------------------------------------------------------------
+PNG16 = ("data:image/png;base64,iVBORw0KGgoAAAANSUhEUgAAABAAAAAQAQMAAAAlPW0iAAAAB3RJTUUH4gMLDwAjrsLbtwAAAAlwSFlzAAAuIwAALiMBeKU/dgAAABl0RVh0"
+         "Q29tbWVudABDcmVhdGVkIHdpdGggR0lNUFeBDhcAAAAGUExURQAA/xjQP14JpdQAAAABYktHRACIBR1IAAAAFklEQVR42mMAgvp/IJTAhgdB1ADVAgDvdAnxN1Ib1gAAAABJRU5ErkJggg==")
+SVGIMG = "data:image/svg+xml;utf8,%3Csvg xmlns='http://www.w3.org/2000/svg' width='20' height='20'%3E%3Ccircle cx='10' cy='10' r='9' fill='%23c3c'/%3E%3C/svg%3E"
+CAPS = ['butt', 'round', 'square']
+JOINS = ['miter', 'round', 'bevel']
+
+
+def gen_edge_case(rng):
+    """(document, view, dx, dy) for the shift oracle: stroke-only shapes and images drawn directly on a portrait /
+    landscape canvas, placed so that the whole-pixel shift moves the geometry across a canvas edge by less than
+    the stroke width (the stroke must stay visible) or moves an image through every part of the canvas."""
+    W, H = rng.choice([(40, 120), (120, 40), (30, 150), (150, 30), (60, 90), (90, 60), (64, 64)])
+    sw = rng.choice([6, 10, 16, 24])
+    dx, dy = 0, 0
+    kind = rng.below(5)
+    edge = rng.choice(['left', 'top', 'right', 'bottom'])
+    col = rng.choice(COLORS)
+    if kind in (0, 1, 2):
+        # a thick stroked line / frame / zero-area path parallel to an edge, `d` pixels inside it;
+        # the shift pushes the geometry d + k pixels outwards with k < stroke/2
+        d = rng.below(12) + 1
+        k = rng.below(max(1, sw // 2 - 1)) + 1
+        if edge in ('left', 'right'):
+            x = d if edge == 'left' else W - d
+            dx = -(d + k) if edge == 'left' else (d + k)
+            dy = rng.below(9) - 4
+            geo = (x, 8, x, H - 8)
+        else:
+            y = d if edge == 'top' else H - d
+            dy = -(d + k) if edge == 'top' else (d + k)
+            dx = rng.below(9) - 4
+            geo = (8, y, W - 8, y)
+        if dx == dy:
+            dx += 1
+        cap = rng.choice(CAPS)
+        if kind == 0:
+            shape = '<line x1="%s" y1="%s" x2="%s" y2="%s" stroke="%s" stroke-width="%d" stroke-linecap="%s"/>' % (geo + (col, sw, cap))
+        elif kind == 1:
+            shape = '<path d="M %s %s L %s %s" fill="none" stroke="%s" stroke-width="%d" stroke-linecap="%s" stroke-opacity="0.8"/>' % (geo + (col, sw, cap))
+        else:
+            # a frame whose one side runs along the edge
+            x0, y0, x1, y1 = geo
+            if edge in ('left', 'right'):
+                x1 = x0 + (30 if edge == 'left' else -30)
+            else:
+                y1 = y0 + (30 if edge == 'top' else -30)
+            shape = '<rect x="%s" y="%s" width="%s" height="%s" fill="none" stroke="%s" stroke-width="%d" stroke-linejoin="%s"/>' % (
+                min(x0, x1), min(y0, y1), abs(x1 - x0), abs(y1 - y0), col, sw, rng.choice(JOINS))
+        body = shape + '<circle cx="%s" cy="%s" r="4" fill="#111"/>' % (W // 2, H // 2)
+    else:
+        # an image (raster or nested SVG) somewhere on the canvas - in particular in the lower part of a portrait one
+        iw = rng.choice([12, 20, 30])
+        x = rng.below(max(1, W - iw + 1))
+        y = rng.below(max(1, H - iw + 1))
+        href = PNG16 if kind == 3 else SVGIMG
+        body = ('<image x="%d" y="%d" width="%d" height="%d" xlink:href="%s"/><rect x="1" y="1" width="%d" height="%d" fill="none" stroke="#888"/>'
+                % (x, y, iw, iw, href, W - 2, H - 2))
+        dx = rng.below(61) - 30
+        dy = rng.below(61) - 30
+        if dx == dy:
+            dy += 1
+    doc = '<svg %s width="%d" height="%d">%s</svg>' % (NS, W, H, body)
+    return doc, "native:1:%s:%s" % (rng.choice([0.0, 0.37, 0.61]), rng.choice([0.0, 0.13, 0.29])), dx, dy
+
+
+def gen_extent_doc(rng):
+    """a document for the isolation oracle whose extent is defined by a filter region (nested 2-3 plain group levels
+    below the root) or by the cap / join of a thick stroke on a diagonal open path"""
+    W = H = 200
+    if rng.below(2) == 0:
+        depth = 2 + rng.below(2)
+        kind = rng.below(4)
+        if kind == 0:
+            flt = '<filter id="f" x="-0.6" y="-0.6" width="2.2" height="2.2"><feGaussianBlur stdDeviation="%s"/></filter>' % rng.choice([4, 7, 10])
+        elif kind == 1:
+            flt = '<filter id="f" x="-1" y="-1" width="3" height="3"><feOffset dx="%d" dy="%d"/></filter>' % (rng.choice([-35, 30, 45]), rng.choice([-30, 25, 40]))
+        elif kind == 2:
+            flt = ('<filter id="f" x="-0.8" y="-0.8" width="2.6" height="2.6"><feDropShadow dx="%d" dy="%d" stdDeviation="3" flood-color="#22d"/></filter>'
+                   % (rng.choice([-25, 20, 30]), rng.choice([-20, 25])))
+        else:
+            flt = '<filter id="f" filterUnits="userSpaceOnUse" x="20" y="30" width="160" height="150"><feFlood flood-color="#2a2" flood-opacity="0.6"/></filter>'
+        inner = '<g filter="url(#f)"><rect x="%d" y="%d" width="%d" height="%d" fill="%s"/></g>' % (
+            70 + rng.below(20), 70 + rng.below(20), 30 + rng.below(30), 30 + rng.below(30), rng.choice(COLORS))
+        for _ in range(depth):
+            t = rng.choice(['', '', ' transform="translate(%d %d)"' % (rng.below(11) - 5, rng.below(11) - 5), ' transform="rotate(%d 100 100)"' % (rng.below(41) - 20)])
+            inner = '<g%s>%s</g>' % (t, inner)
+        return '<svg %s width="%d" height="%d">%s%s</svg>' % (NS, W, H, flt, inner)
+    cap, join = rng.choice(CAPS), rng.choice(JOINS)
+    sw = rng.choice([12, 20, 30, 44])
+    a = rng.uniform(0.2, 1.3)
+    import math as _m
+    x0, y0 = 100 - 40 * _m.cos(a), 100 - 40 * _m.sin(a)
+    x1, y1 = 100 + 40 * _m.cos(a), 100 + 40 * _m.sin(a)
+    mid = '' if rng.below(2) else ' L %s %s' % (fnum(100 + 25 * _m.sin(a)), fnum(100 - 25 * _m.cos(a)))
+    path = ('<path d="M %s %s%s L %s %s" fill="none" stroke="%s" stroke-width="%d" stroke-linecap="%s" stroke-linejoin="%s"%s/>'
+            % (fnum(x0), fnum(y0), mid, fnum(x1), fnum(y1), rng.choice(COLORS), sw, cap, join,
+               rng.choice(['', ' stroke-miterlimit="10"', ' stroke-opacity="0.7"'])))
+    t = rng.choice(['', ' transform="rotate(%d 100 100)"' % rng.below(90), ' transform="skewX(%d)"' % (rng.below(41) - 20)])
+    return '<svg %s width="%d" height="%d"><g%s><g>%s</g></g></svg>' % (NS, W, H, t, path)
